@@ -18,6 +18,10 @@ package common
 //@   ensures [nonnil] err == nil ==> result0 != nil && result0.Snapshot != nil
 //@   ensures [count] err == nil ==> 1 <= len(result0.Snapshot.Transactions) && len(result0.Snapshot.Transactions) <= SnapshotTransactionsMaximum
 //@   ensures [fresh] err == nil ==> fresh(result0) && fresh(result0.Snapshot)
+//@ -- added for C35: checkSnapVersion returns 0 or SnapshotVersionCommonEncoding and the decoder stores that value in Version; the decoded
+//@ -- object remembers what it was decoded from (SnapSrc, see zz_contracts_verif.go).
+//@   ensures [version] err == nil ==> result0.Snapshot.Version == SnapshotVersionCommonEncoding
+//@   ensures [source] err == nil ==> SnapSrc(result0.Snapshot) == kvval(b)
 
 //@ -- PROVED: the minimum decoder starts at position 0 of b[4:].
 //@ func NewMinimumDecoder
